@@ -1,5 +1,5 @@
 From Coq Require Extraction ExtrOcamlBasic.
-From OxiVerif Require Import Base.Conv DD.Table DD.TableExtra DD.Sem Num.I64 DD.Build DD.Cache DD.Apply.
+From OxiVerif Require Import Base.Conv DD.Table DD.TableExtra DD.Sem Num.I64 DD.Build DD.Cache DD.Apply DD.IsoCheck.
 Extraction Language OCaml.
 Extraction "model.ml" conv_anchor
   Table.sem_edge Table.wf_b TableExtra.terms_kind_b TableExtra.wf_full_b Table.famz
@@ -12,4 +12,5 @@ Extraction "model.ml" conv_anchor
   Apply.apply_not Apply.apply_bin Apply.apply_ite
   Apply.mk_const Apply.mk_var Apply.eval_walk Apply.choices_of Apply.eval_edge Apply.cofactors
   Apply.ac_get Apply.ac_add Apply.nc_get Apply.nc_add
-  Cache.dm_init Cache.dmr_get Cache.dmr_add Cache.dm_clear.
+  Cache.dm_init Cache.dmr_get Cache.dmr_add Cache.dm_clear
+  IsoCheck.iso_with IsoCheck.build_idx IsoCheck.rmap_find.
